@@ -1050,7 +1050,12 @@ func (c *Conn) handleBdat(arg string) {
 		}()
 	}
 
+	// The chunk is binary data, not lines. The limit must be back in place
+	// for the next command line whatever happens below.
 	c.lineLimitReader.LineLimit = 0
+	defer func() {
+		c.lineLimitReader.LineLimit = c.server.MaxLineLength
+	}()
 
 	chunk := io.LimitReader(c.text.R, int64(size))
 	n, err := io.Copy(c.bdatPipe, chunk)
